@@ -236,7 +236,7 @@ def eval_shard(path):
 
 
 def eval_cases(outdir):
-    shards = sorted(glob.glob(os.path.join(outdir, "cases_*.v")))
+    shards = sorted(glob.glob(os.path.join(outdir, "cases_[0-9]*.v")))
     failing, errors = [], []
     with ThreadPoolExecutor(max_workers=14) as ex:
         for path, (res, out) in zip(shards, ex.map(eval_shard, shards)):
@@ -375,39 +375,59 @@ def run_check(prop, tier, seed, only=None):
         relevant_break = True
         notes.append("audit: " + "; ".join(problems[:10]))
 
-    # 4. correspondence
-    env = {"VERIF_SEED": str(seed), "VERIF_TIER": tier, "VERIF_OUT": outdir}
-    env.update(cfg.get("env", {}))
-    tmo = cfg.get("timeout", {}).get(tier, 900 if tier == "quick" else 7200)
-    rc, hout = go_test(cfg["pkg"], cfg["test"], env, tmo, cwd=os.path.join(REPO, cfg.get("cwd", "")),
-                       race=cfg.get("race", False) and tier == "thorough")
+    # 4. correspondence: the main harness and optional extra harnesses (other packages), each into its own directory
+    parts = [dict(pkg=cfg["pkg"], test=cfg["test"], cwd=cfg.get("cwd", ""))] + list(cfg.get("extra", []))
     meta = {}
     failing, errors, nshards = [], [], 0
-    harness_ok = (rc == 0 and os.path.exists(os.path.join(outdir, "meta.json")))
-    if not harness_ok:
-        notes.append("harness did not complete (rc=%d): %s" % (rc, hout[-2500:]))
-        path = write_replay(prop, "harness-failure", {"property": prop, "seed": seed, "tier": tier,
-                                                     "what": "correspondence harness failed to build or run against the working tree",
-                                                     "output": hout[-6000:]})
-        # a panic of the code under test inside the harness is a finding with an input only if the harness says so
-        violations.append(("harness failed", path, False))
-    else:
-        meta = json.load(open(os.path.join(outdir, "meta.json")))
-        if ok:
-            failing, errors, nshards = eval_cases(outdir)
-            for path, eout in errors:
-                notes.append("case shard failed to evaluate: %s: %s" % (os.path.basename(path), eout[-600:]))
-            if errors:
-                p = write_replay(prop, "shard-error", {"property": prop, "seed": seed, "tier": tier,
-                                                      "what": "a cases shard did not type-check/evaluate", "detail": errors[0][1]})
-                violations.append(("cases shard error", p, False))
-
-    humans = []
-    if harness_ok:
+    harness_ok = True
+    part_dirs = []
+    offset = 0
+    all_humans = []
+    for pi, part in enumerate(parts):
+        pdir = outdir if pi == 0 else os.path.join(outdir, "part%d" % pi)
+        os.makedirs(pdir, exist_ok=True)
+        part_dirs.append(pdir)
+        env = {"VERIF_SEED": str(seed), "VERIF_TIER": tier, "VERIF_OUT": pdir}
+        env.update(cfg.get("env", {}))
+        tmo = cfg.get("timeout", {}).get(tier, 900 if tier == "quick" else 7200)
+        rc, hout = go_test(part["pkg"], part["test"], env, tmo, cwd=os.path.join(REPO, part.get("cwd", "")),
+                           race=cfg.get("race", False) and tier == "thorough")
+        if not (rc == 0 and os.path.exists(os.path.join(pdir, "meta.json"))):
+            harness_ok = False
+            notes.append("harness %s %s did not complete (rc=%d): %s" % (part["pkg"], part["test"], rc, hout[-2500:]))
+            path = write_replay(prop, "harness-failure", {"property": prop, "seed": seed, "tier": tier,
+                                                         "what": "correspondence harness failed to build or run against the working tree",
+                                                         "harness": "%s %s" % (part["pkg"], part["test"]), "output": hout[-6000:]})
+            violations.append(("harness failed", path, False))
+            break
+        pm = json.load(open(os.path.join(pdir, "meta.json")))
+        if pi == 0:
+            meta = pm
+        else:
+            for k in ("evaluations", "distinct", "distinct_nontrivial", "shards"):
+                meta[k] = meta.get(k, 0) + pm.get(k, 0)
+            meta.setdefault("distribution", {}).update({"part%d.%s" % (pi, k): v for k, v in pm.get("distribution", {}).items()})
+            meta.setdefault("extra", {}).update(pm.get("extra", {}))
         try:
-            humans = json.load(open(os.path.join(outdir, "cases.json")))
+            ph = json.load(open(os.path.join(pdir, "cases.json")))
         except Exception:
-            humans = []
+            ph = []
+        if ok:
+            pf, pe, pn = eval_cases(pdir)
+            failing.extend([(i + offset, codes) for i, codes in pf])
+            errors.extend(pe)
+            nshards += pn
+        all_humans.extend(ph)
+        offset += len(ph)
+    if harness_ok and ok:
+        for path, eout in errors:
+            notes.append("case shard failed to evaluate: %s: %s" % (os.path.basename(path), eout[-600:]))
+        if errors:
+            p = write_replay(prop, "shard-error", {"property": prop, "seed": seed, "tier": tier,
+                                                  "what": "a cases shard did not type-check/evaluate", "detail": errors[0][1]})
+            violations.append(("cases shard error", p, False))
+
+    humans = all_humans
 
     findings = load_findings()
     known_by_code = {f["code"]: f for f in findings if f["property"] == prop and f["status"] == "known"}
